@@ -13,6 +13,7 @@ import (
 	"time"
 
 	"github.com/TarsCloud/TarsGo/tars"
+	"github.com/TarsCloud/TarsGo/tars/protocol/res/requestf"
 	"github.com/TarsCloud/TarsGo/tars/transport"
 
 	"verifsim/gen/VerifAll"
@@ -104,6 +105,7 @@ type S struct {
 	udpCli   []*simnet.UDPConn
 	udpSrv   string
 	qcap     int
+	bigStrings bool
 	seq      int
 	done     bool
 }
@@ -156,7 +158,11 @@ func (s *S) mkRequest(c *scen.Ctx, id int32, saturated bool) *reqPlan {
 	r := &refcodec.Request{Version: version, PacketType: pt, RequestID: id, Servant: "App.Srv.EchoObj", Context: map[string]string{}, Status: map[string]string{}}
 	intF := func(v int64) func(e *refcodec.Enc, tag int) { return func(e *refcodec.Enc, tag int) { e.Int(tag, v) } }
 	strF := func(v string) func(e *refcodec.Enc, tag int) { return func(e *refcodec.Enc, tag int) { e.String(tag, v) } }
-	switch simrt.Draw(8, "c10.func") {
+	fn := simrt.Draw(8, "c10.func")
+	if s.bigStrings && fn != 5 && simrt.Draw(2, "c10.bigbias") == 1 {
+		fn = 2
+	}
+	switch fn {
 	case 0, 1:
 		p.kind, r.Func = "addInts", "addInts"
 		p.a, p.b = id, int64(simrt.Draw(1<<20, "c10.b"))-500000
@@ -164,7 +170,12 @@ func (s *S) mkRequest(c *scen.Ctx, id int32, saturated bool) *reqPlan {
 		p.key = fmt.Sprintf("addInts:%d", p.a)
 	case 2:
 		p.kind, r.Func = "echoString", "echoString"
-		p.str = fmt.Sprintf("s%d-%s", id, strings.Repeat("z", simrt.Draw(300, "c10.slen")))
+		n := simrt.Draw(300, "c10.slen")
+		if s.bigStrings {
+			// responses of 140-300 KB, several of them in flight on one connection
+			n = 70000 + 1000*simrt.Draw(80, "c10.bigslen")
+		}
+		p.str = fmt.Sprintf("s%d-%s", id, strings.Repeat("z", n))
 		r.Buffer = body(version, map[string]func(*refcodec.Enc, int){"s": strF(p.str)}, []string{"s"}, map[string]int{"s": 1}, map[string]interface{}{"s": p.str})
 		p.key = "echoString:" + p.str
 	case 3, 4:
@@ -227,6 +238,19 @@ func (s *S) Run(c *scen.Ctx) {
 	c.Describe("queue_cap", qcap)
 	c.Describe("handle_timeout", s.handleTO.String())
 	tars.VerifFreshApp()
+	if s.proto == "tcp" && simrt.Draw(10, "c10.bigstrings") == 9 {
+		s.bigStrings = true
+		c.Count("probe.big_responses_pipelined", 1)
+	}
+	if simrt.Draw(3, "c10.middleware") == 2 {
+		// a pass-through server filter middleware: outcomes (errors in particular) are what they are without it
+		tars.UseServerFilterMiddleware(func(next tars.ServerFilter) tars.ServerFilter {
+			return func(ctx context.Context, d tars.Dispatch, f interface{}, req *requestf.RequestPacket, resp *requestf.ResponsePacket, withContext bool) error {
+				return next(ctx, d, f, req, resp, withContext)
+			}
+		})
+		c.Describe("server_filter_middleware", true)
+	}
 	// server-side time-outs: a connection with requests in flight is neither idle nor stuck
 	readTO := []time.Duration{0, 0, 100 * time.Millisecond, time.Second}[simrt.Draw(4, "c10.readto")]
 	idleTO := []time.Duration{600 * time.Second, 600 * time.Second, 400 * time.Millisecond, 2 * time.Second}[simrt.Draw(4, "c10.idleto")]
